@@ -169,13 +169,18 @@ func execC22(c run.Case) (res run.Result) {
 				cell.out += offset
 			}
 			cell.slot, cell.plain = layUnion(parts), len(parts) == 1
-			if nat, ok := natural[ch.AbsID()]; ok {
+			{
+				// natural size: after SetDimensions for leaves; a container cell's natural size is
+				// that of its nested layout, which only shows in the final box — so the final box
+				// is tested as well (an outside label still larger than the stretched box)
+				nat, hasNat := natural[ch.AbsID()]
+				box := layShapeRect(s)
 				over := func(pos string, w, h float64) bool {
 					switch {
 					case strings.HasPrefix(pos, "OUTSIDE_TOP"), strings.HasPrefix(pos, "OUTSIDE_BOTTOM"):
-						return w+label.PADDING > nat[0]
+						return hasNat && w+label.PADDING > nat[0] || w+label.PADDING > box.W
 					case strings.HasPrefix(pos, "OUTSIDE_LEFT"), strings.HasPrefix(pos, "OUTSIDE_RIGHT"):
-						return h+label.PADDING > nat[1]
+						return hasNat && h+label.PADDING > nat[1] || h+label.PADDING > box.H
 					}
 					return false
 				}
